@@ -17,7 +17,7 @@ from pymodbus import diag_message as dm
 from pymodbus.device import ModbusControlBlock
 
 from harness.runner import Report
-from harness import pdus, msggen
+from harness import pdus, msggen, framelib
 from harness.pyutil import errkind
 
 ASSUMPTIONS = ['the transport returns exactly the bytes asked for while the reply frame lasts (a serial port with the '
@@ -367,7 +367,7 @@ def check_client(rep, fname, m, resp, exception=False):
         fid = classify(m, 'client')
         if fname == 'rtu' and m['t'] == 'diag' and len(frame) > 8 and pos == flen:
             fid = 'rtu-diag-response-size'
-        if fname == 'binary' and any(b in (0x7B, 0x7D) for b in frame[1:-1]):
+        if fname == 'binary' and framelib.has_delim(frame):
             fid = 'binary-framer-escaping'
         rep.violation('the client did not read exactly the reply frame', case, finding=fid,
                       asked=asked, consumed=pos, frame_len=flen, got=got, expected=expect)
